@@ -19,11 +19,11 @@ def run(tier):
               for (a, b) in LABEL_PAIRS for n2 in range(3)]
         p2 += [[2, k1, k2, 0, 2, n2] for k1 in range(6) for k2 in range(6) for n2 in range(3)]
     obs = [
-        Obligation('seq1', 'harness/c11.py', 'h_seq1', partitions=p1, timeout=400,
+        Obligation('seq1', 'harness/c11.py', 'h_seq1', partitions=p1, timeout=(400 if tier == 'quick' else 900),
                    what='one mutation of {RenameModel, RenameAppLabel, RenameField, DeleteField, DeleteModel, DeleteApplication} on a 2-app/3-model project: every relation names its target identity under the current app label and model name and resolves unless the target was deleted',
                    bounds='relation shapes %s of harness/c11.py SHAPES; app labels: all ordered pairs from %s; model names: all (n0!=n1, n2) from %s; every mutation target and every new name from the pools' % (shapes1, "['T','Tx','a']", "['Tx','TxY','a']"),
                    functions=FUNCS),
-        Obligation('seq2', 'harness/c11.py', 'h_seq2', partitions=p2, timeout=400,
+        Obligation('seq2', 'harness/c11.py', 'h_seq2', partitions=p2, timeout=(400 if tier == 'quick' else 900),
                    what='all sequences of two such mutations (same oracle after each step)',
                    bounds=('quick: shape 0, labels (T,a), n2=Tx, all 36 kind pairs, all targets/new names; '
                            if tier == 'quick' else
